@@ -33,8 +33,9 @@ Enum(r, vs) == [item |-> "enum", reprs |-> <<r>>, variants |-> vs, count |-> 0, 
 GaplessDecl(r) == Enum(r, <<Unit(1, "implicit", 0, "dec"), Unit(2, "implicit", 0, "dec"), Unit(3, "implicit", 0, "dec")>>)
 HolesDecl(r)   == Enum(r, <<Unit(1, "lit", 6, "dec"), Unit(2, "lit", 0, "dec"), Unit(3, "implicit", 0, "dec"), Unit(4, "lit", 3, "dec")>>)   \* {0,1,3,6}
 SingleDecl(r)  == Enum(r, <<Unit(1, "implicit", 0, "dec")>>)
-NegHolesDecl(r) == Enum(r, <<Unit(1, "lit", Lims[r].lo, "dec"), Unit(2, "lit", 0, "dec"), Unit(3, "lit", Lims[r].hi, "dec")>>)
-Shapes(r) == {GaplessDecl(r), HolesDecl(r), SingleDecl(r)}
+NegHolesDecl(r) == Enum(r, <<Unit(1, "lit", Lims[r].lo, "dec"), Unit(2, "lit", IF Lims[r].lo < 0 THEN 0 ELSE Lims[r].lo + 5, "dec"),
+                             Unit(3, "lit", Lims[r].hi, "dec")>>)
+Shapes(r) == {GaplessDecl(r), HolesDecl(r), SingleDecl(r), NegHolesDecl(r)}       \* NegHolesDecl: runs at both limits of the repr
 
 \* ---- configurations -----------------------------------------------------------------------------
 NoVarAttr == [at |-> 0, form |-> "none"]
